@@ -22,6 +22,7 @@ CONSTANTS
   PauseKeepsRegistered = FALSE
   RejoinPausedNoAvail = FALSE
   ResetSeparate = FALSE
+  JumpToFirstAvailable = FALSE
 SPECIFICATION FairSpec
 PROPERTIES C03_Live
 CHECK_DEADLOCK FALSE
